@@ -5,6 +5,7 @@ prefix.  Every branch on a symbolic value goes through `Ctx.branch`, finite
 structure through `Ctx.choose`.  Property assertions go through `Ctx.check`
 (validity under the path condition).
 """
+import os
 import time
 import fractions
 import z3
@@ -41,6 +42,17 @@ def frac_of_model_value(v, digits=40):
         a = v.approx(digits)
         return fractions.Fraction(a.numerator_as_long(), a.denominator_as_long())
     raise ValueError(f"not a numeral: {v}")
+
+
+class _ModelAdapter:
+    """model living in another z3 context; evaluates main-context terms"""
+
+    def __init__(self, model, c2):
+        self.model = model
+        self.c2 = c2
+
+    def eval(self, t, model_completion=False):
+        return self.model.eval(t.translate(self.c2), model_completion=model_completion)
 
 
 class Failure:
@@ -142,14 +154,16 @@ class Ctx:
             if not t:
                 raise Infeasible()
             return
-        t = z3.simplify(t)
-        if z3.is_true(t):
+        # z3.simplify is used only to detect constants: its rewriting of
+        # `x*y >= 0` into sign conditions on the factors hurts later queries
+        ts = z3.simplify(t)
+        if z3.is_true(ts):
             return
-        if z3.is_false(t):
+        if z3.is_false(ts):
             raise Infeasible()
         self._add(t)
-        self.known[t.get_id()] = True
-        self.keepalive.append(t)
+        self.known[ts.get_id()] = True
+        self.keepalive.append((t, ts))
         r = self._check()
         if r == z3.unsat:
             raise Infeasible()
@@ -167,15 +181,16 @@ class Ctx:
         """
         if isinstance(t, bool):
             return t
-        t = z3.simplify(t)
-        if z3.is_true(t):
+        ts = z3.simplify(t)
+        if z3.is_true(ts):
             return True
-        if z3.is_false(t):
+        if z3.is_false(ts):
             return False
-        tid = t.get_id()
+        tid = ts.get_id()
         if tid in self.known:
             return self.known[tid]
-        nt = z3.simplify(z3.Not(t))
+        nts = z3.simplify(z3.Not(ts))
+        nt = z3.Not(t)
         i = len(self.decisions)
         if i >= self.max_decisions:
             raise Inconclusive(f"decision budget {self.max_decisions} exhausted")
@@ -193,6 +208,9 @@ class Ctx:
                 except z3.Z3Exception:
                     side = None
             feas = []
+            bms = self.opts.get("branch_ms")
+            if bms:
+                self.solver.set("timeout", bms)
             for want, term in ((True, t), (False, nt)):
                 if side is want:
                     feas.append(want)
@@ -206,6 +224,8 @@ class Ctx:
                     # over-approximate: explore it (sound for "holds")
                     self.unknown_branch += 1
                     feas.append(want)
+            if bms:
+                self.solver.set("timeout", self.timeout_ms)
             if not feas:
                 raise Infeasible()
             val = feas[0]
@@ -214,8 +234,8 @@ class Ctx:
         self.decisions.append(1 if val else 0)
         self._add(t if val else nt)
         self.known[tid] = val
-        self.known[nt.get_id()] = not val
-        self.keepalive.append((t, nt))  # ids are only unique among live terms
+        self.known[nts.get_id()] = not val
+        self.keepalive.append((t, nt, ts, nts))  # ids are only unique among live terms
         return val
 
     def choose(self, n, tag=None):
@@ -250,8 +270,7 @@ class Ctx:
             if r == z3.sat:
                 return "invalid", self.solver.model()
             return ("valid", None) if r == z3.unsat else ("unknown", None)
-        t = z3.simplify(t)
-        if z3.is_true(t):
+        if z3.is_true(z3.simplify(t)):
             return "valid", None
         # quick incremental attempt, then a fresh (tactic-based, nlsat) solver
         self.solver.set("timeout", min(self.timeout_ms, self.opts.get("incr_check_ms", 1500)))
@@ -272,17 +291,89 @@ class Ctx:
         return "unknown", None
 
     def _fresh_check(self, extra):
+        """non-incremental portfolio: (1) sum-of-monomials normal form + smt
+        (identical products become identical atoms), (2) default tactic solver"""
         t0 = time.perf_counter()
-        s = z3.Solver()
-        s.set("timeout", self.timeout_ms)
-        for a in self.assertions:
-            s.add(a)
-        s.add(extra)
-        r = s.check()
+        r, m = z3.unknown, None
+        # (0) linear abstraction over monomials: deterministic and fast when the
+        # needed argument is linear in the products (the common case here)
+        try:
+            from .linabs import linearize
+
+            lin, nm, _L = linearize(list(self.assertions) + [extra])
+            if nm:
+                s0 = z3.Solver()
+                s0.set("timeout", min(self.timeout_ms, 6000))
+                s0.add(lin)
+                r0 = s0.check()
+                self.queries += 1
+                if r0 == z3.unsat:
+                    self.solver_s += time.perf_counter() - t0
+                    self.lin_proofs = getattr(self, "lin_proofs", 0) + 1
+                    return z3.unsat, None
+        except (z3.Z3Exception, OverflowError):
+            pass
+        som = lambda **kw: z3.With("simplify", som=True, **kw)
+        short = min(self.timeout_ms, 4000)
+        attempts = []
+        for seed in (0, 1, 2):
+            sm = lambda seed=seed: z3.With("smt", random_seed=seed)
+            attempts += [
+                (lambda sm=sm: z3.Then(som(), sm()).solver(), short),
+                (lambda sm=sm: z3.Then(som(arith_lhs=True), sm()).solver(), short),
+                (lambda sm=sm: z3.Then(som(), "propagate-values", som(), sm()).solver(), short),
+            ]
+            if seed == 0:
+                attempts.append((lambda: z3.Solver(), self.timeout_ms))
+        for i, (mk, tmo) in enumerate(attempts):
+            s = mk()
+            s.set("timeout", tmo)
+            for a in self.assertions:
+                s.add(a)
+            s.add(extra)
+            r = s.check()
+            self.queries += 1
+            if r != z3.unknown:
+                m = s.model() if r == z3.sat else None
+                break
+            if i == 0:
+                # same query re-parsed in a pristine z3 context: independent of the
+                # AST numbering history of this process (observed to matter)
+                r, m = self._pristine_check(extra)
+                if r != z3.unknown:
+                    break
         self.solver_s += time.perf_counter() - t0
-        self.queries += 1
-        m = s.model() if r == z3.sat else None
+        if r == z3.unknown and os.environ.get("SX_DUMP_UNKNOWN"):
+            s = z3.Solver()
+            for a in self.assertions:
+                s.add(a)
+            s.add(extra)
+            with open(os.path.join(os.environ["SX_DUMP_UNKNOWN"], f"unk_{os.getpid()}_{self.queries}.smt2"), "w") as fp:
+                fp.write(s.to_smt2())
         return r, m
+
+    def _pristine_check(self, extra):
+        base = z3.Solver()
+        for a in self.assertions:
+            base.add(a)
+        base.add(extra)
+        txt = base.to_smt2()
+        c2 = z3.Context()
+        fs = z3.parse_smt2_string(txt, ctx=c2)
+        for mk in (
+            lambda: z3.Then(z3.With("simplify", som=True, ctx=c2), z3.Tactic("smt", ctx=c2), ctx=c2).solver(),
+            lambda: z3.Solver(ctx=c2),
+        ):
+            s = mk()
+            s.set("timeout", min(self.timeout_ms, 8000))
+            s.add(fs)
+            r = s.check()
+            self.queries += 1
+            if r == z3.unsat:
+                return z3.unsat, None
+            if r == z3.sat:
+                return z3.sat, _ModelAdapter(s.model(), c2)
+        return z3.unknown, None
 
     def model_inputs(self, model):
         out = {}
